@@ -1,8 +1,11 @@
 import SciVerif.Tie.ProcSem
 import SciVerif.Tie.Task
 import SciVerif.Props.C17
+import SciVerif.Tie.Pins
 /-! Tie A obligations for C17 on the current source. -/
 namespace SciVerif.Tie
+-- functions the model relies on without an obligation of its own naming them (pinned by bin/mkpins):
+-- PIN-ALSO: Scipipe.Process_initPortsFromCmdPattern Scipipe.FileIP_FifoFileExists Scipipe.InPort_Send Scipipe.OutPort_Send
 open SciVerif.Generated SciVerif.TaskFS
 
 theorem generated_wf_c01_for_c17 : WF_C01 taskSem := by decide
@@ -33,7 +36,30 @@ theorem c17_on_source (c : Cfg) (pre : Nat → Option File) (n p : Nat) (hp : is
     (stepN taskSem c n (init taskSem c pre)).finalOut p = (init taskSem c pre).finalOut p :=
   c17_no_regular_file taskSem generated_wf_c01_for_c17 generated_streams_exempt c pre n p hp
 
+
+-- BEGIN PINS (written by bin/mkpins; do not edit by hand)
+/-- the Go functions this property's model and obligations were written against have exactly the
+pinned skeletons (SHA-256 prefix of the atom list) -/
+theorem pinned_skeletons_c17 :
+    pinsOk
+    [("Scipipe.FileIP_CreateFifo", "f6360b33d779c2ee"),
+     ("Scipipe.FileIP_FifoFileExists", "b822f2c3227ef952"),
+     ("Scipipe.FileIP_FifoPath", "03369ad2f75ce2a0"),
+     ("Scipipe.FinalizePaths", "291fc0cefa37cea9"),
+     ("Scipipe.InPort_Send", "62cb51bf3ab53084"),
+     ("Scipipe.NewTask", "95298f03c320cb96"),
+     ("Scipipe.OutPort_Send", "06287c7bef096378"),
+     ("Scipipe.Process_Run", "05880ea16e590fb1"),
+     ("Scipipe.Process_initPortsFromCmdPattern", "4f7c6ade86c29af6"),
+     ("Scipipe.Task_Execute", "40fd1fec0c69deb2"),
+     ("Scipipe.Task_anyOutputsExist", "0609a842b7aaf7a8"),
+     ("Scipipe.Task_executeCommand", "98e77d849c0638cb"),
+     ("Scipipe.Task_finalizePaths", "9cd0530d4e86fa92"),
+     ("Scipipe.Task_formatCommand", "ccbe98735ce5c7d6")] = true := by decide
+-- END PINS
+
 end SciVerif.Tie
+#print axioms SciVerif.Tie.pinned_skeletons_c17
 #print axioms SciVerif.Tie.generated_wf_c01_for_c17
 #print axioms SciVerif.Tie.generated_streams_exempt
 #print axioms SciVerif.Tie.generated_fifo_protocol
